@@ -75,6 +75,31 @@ PROPS = {
         'trusted_base': SERVER_TB + ['Go race detector (go test -race) over the real router with 2..64 concurrent clients: the data-race half of the property is runtime behaviour the Coq model cannot exhibit'],
         'assumptions': COMMON_ASSUME + ['partial: data-race freedom is established by the effect discipline obligations (no assignment to captured variables, repository under mutex) plus race-detector runs, not by a theorem about the Go memory model'],
     },
+    'C03': {
+        'props': ['theories/Props/C03.v'], 'deps': READER_DEPS + VERIFY_DEPS + ['theories/Theory/ParseSafety.v', 'theories/Theory/ReaderTotal.v'],
+        'streams': ['l4-reader', 'l2-tags', 'l7-json'],
+        'trusted_base': READER_TB + GOV_TB + ['translator reading of the 60 Parse functions into step lists, tied by stream l2-tags',
+                                             'hand model of converters.go: slicing inside parseFixedStringField / parseVariableStringField is modelled as total (tied by 300k tag cases incl. multi-byte and invalid UTF-8)'],
+        'assumptions': COMMON_ASSUME + ['encoding/json is outside the model: totality of FileFromJSON is decided on the implementation by stream l7-json (hand-written and mutated documents), not by a theorem',
+                                        'memory: the theorem bounds the scanner buffer (64 KiB); allocation inside the Go runtime and in {8200} handling is observed, not proved'],
+    },
+    'C13': {
+        'props': ['theories/Props/C13.v'], 'deps': VERIFY_DEPS + ['theories/Theory/WriterFacts.v', 'gen/Effects.v', 'gen/Writer.v'],
+        'streams': ['l7-purity'],
+        'trusted_base': GOV_TB + ['translator effect scan (translator/effects.go): assignments through receiver / pointer, map, slice parameters / package variables, call graph by name inside package wire; calls into imported packages are assumed read-only',
+                                  'Go race detector for the shared-use half (binary built with -race, 2..64 goroutines per message)'],
+        'assumptions': COMMON_ASSUME + ['partial: absence of data races under the Go memory model is runtime behaviour the Coq model cannot exhibit; it follows informally from the effect-scan obligation and is tested under the race detector',
+                                        'aliasing through local pointer variables is not tracked by the effect scan (none of the scanned functions takes the address of a receiver field)'],
+    },
+    'C14': {
+        'props': ['theories/Props/C14.v'], 'deps': ['theories/Model/Json.v', 'theories/Theory/JsonFacts.v', 'gen/Json.v', 'gen/Tags.v'],
+        'streams': ['l7-json'],
+        'trusted_base': ['translator reading of the struct tags (json names, omitempty) and of UnmarshalJSON (alias type, restored marker constant) in the 60 tag files and fedWireMessage.go',
+                         'translator reading of client/model_*.go and of openapi.yaml (block-mapping subset reader in translator/json.go)',
+                         'model of encoding/json (Model/Json.v): member lookup by exact name, omitempty on strings and nil pointers, null -> nil, struct values always emitted; tied by stream l7-json (2,000+ encode / decode cases incl. dropped, unknown, misspelt, null and {} members)'],
+        'assumptions': COMMON_ASSUME + ['case-insensitive member matching of encoding/json is not modelled (the generated documents use exact names)',
+                                        'name agreement is proved for the 29 message elements outside the recorded list of 31; those 31 are recorded findings (Findings/C14.v)'],
+    },
     'C15': {
         'props': ['theories/Props/C15.v'], 'deps': READER_DEPS,
         'streams': ['l5-props', 'l4-reader'],
